@@ -3047,13 +3047,13 @@ where
                         }
                     };
 
-                if flip_degenerate {
-                    if repair_trace_enabled() {
-                        tracing::debug!(
-                            "[repair] postcondition k=2 violation unresolved due to degenerate flip (facet={facet:?})"
-                        );
-                    }
-                    continue;
+                // A violation whose k=2 flip would create a degenerate cell cannot be repaired by
+                // that flip, but it is still a violation of the empty-circumsphere property: the
+                // verifier must report it (only the repair loop may skip the flip).
+                if flip_degenerate && repair_trace_enabled() {
+                    tracing::debug!(
+                        "[repair] postcondition k=2 violation unresolved due to degenerate flip (facet={facet:?})"
+                    );
                 }
                 if repair_trace_enabled() {
                     tracing::debug!(
